@@ -575,6 +575,32 @@ def run_keys(S, i):
             S.violation('transparency:keys', dict(case, call=c, n=n), p)
     res.count('keys_files', len(os.listdir(d)))
     shutil.rmtree(d, ignore_errors=True)
+    # array arguments that differ only in memory layout / share a memory image, one cache directory per family
+    for nf, fam in enumerate(K.layout_families(rng)):
+        d = S.tmp()
+        res.count('layout_families')
+        for a in range(len(fam)):
+            for b in range(a):
+                if K.same_image_other_meaning(fam[a], fam[b]):
+                    res.count('layout_pairs_same_image_other_meaning')
+                elif L.canon(fam[a]) == L.canon(fam[b]):
+                    res.count('layout_pairs_same_meaning_other_layout')
+        order = [int(x) for x in rng.permutation(len(fam))]
+        order = order + [int(x) for x in rng.permutation(len(fam))]        # second pass: every call is a hit on somebody's entry
+        for n, m in enumerate(order):
+            arr = fam[m]
+            tag = nf % 2
+            fn = (lambda: K.f_arr(arr, tag)) if n % 3 else (lambda: K.f_arr(tag=tag, a=arr))
+            with cache.disable():
+                model = L.observe(fn, K.executions)
+            with cache.enable(d):
+                o = L.observe(fn, K.executions)
+            res.count('calls')
+            res.count('layout_calls')
+            res.count('layout_' + ('hit' if o.executed == 0 else 'miss'))
+            for p in L.compare(o, model, f'array argument (family {nf} member {m}: shape {arr.shape} dtype {arr.dtype.str} strides {arr.strides}) in a directory shared with arrays of other layout'):
+                S.violation('transparency:array-layout', dict(case, family=nf, member=m, call_number=n), p)
+        shutil.rmtree(d, ignore_errors=True)
 
 
 # ---------------------------------------------------------------- (C) Recursion
@@ -940,7 +966,10 @@ def finalize(m, tier, seed):
         transparency=dict(miss_hit_pairs=c.get('A_miss_hit_pairs', 0), after_exception=c.get('A_after_exception', 0),
                           equivalent_binding_hit=c.get('A_equivalent_binding_hit', 0), equivalent_binding_executed=c.get('A_equivalent_binding_executed', 0),
                           key_sequences=dict(calls=c.get('keys_calls', 0), hits=c.get('keys_hit', 0), misses=c.get('keys_miss', 0),
-                                             distinct_values=len(m.sets.get('key_entries', ())), files=c.get('keys_files', 0))),
+                                             distinct_values=len(m.sets.get('key_entries', ())), files=c.get('keys_files', 0)),
+                          array_layout=dict(families=c.get('layout_families', 0), calls=c.get('layout_calls', 0), hits=c.get('layout_hit', 0), misses=c.get('layout_miss', 0),
+                                            pairs_same_memory_image_other_meaning=c.get('layout_pairs_same_image_other_meaning', 0),
+                                            pairs_same_meaning_other_layout=c.get('layout_pairs_same_meaning_other_layout', 0))),
         recursion=dict(histories=c.get('rec_histories', 0), distinct_histories=len(m.sets.get('rec_distinct', ())), ops=sub('rec_ops/'), lengths=sub('rec_length/'),
                        modes=sub('rec_mode/'), shapes=sub('rec_shape/'), ends=sub('rec_end/'), real_kills=c.get('rec_real_kills', 0),
                        kill_not_reached=c.get('rec_kill_not_reached', 0), fresh_interpreter_full_runs=c.get('rec_subprocess_full_runs', 0), files_truncated=c.get('rec_files_truncated', 0), items_resumed=c.get('rec_items_resumed', 0),
@@ -979,4 +1008,6 @@ def finalize(m, tier, seed):
         inc.append("nutils' own memoised callables not all exercised")
     if c.get('keys_calls', 0) < 30 * n['keys'] or c.get('keys_hit', 0) < 5:
         inc.append('key-collision sequences under-exercised')
+    if c.get('layout_pairs_same_image_other_meaning', 0) < 10 * n['keys'] or c.get('layout_hit', 0) < 20 * n['keys']:
+        inc.append('array-layout argument pairs under-exercised')
     return dict(coverage=cov, inconclusive='; '.join(inc) or None)
